@@ -18,6 +18,9 @@ EXTENDS Integers, Sequences, TLC, Json, IOUtils
 VARIABLES stage, parse, compile, execute, ast, bc
 
 Formats == {"json", "lisp", "yaml"}
+\* a format named on the command line may be spelled as in the README (lower case) or as in the help text and the wrapper script (upper case)
+Spellings == {"lower", "upper"}
+Spelled(f, sp) == IF sp = "lower" THEN f ELSE CASE f = "json" -> "JSON" [] f = "lisp" -> "LISP" [] OTHER -> "YAML"
 \* names of the source file without its .fml extension: one plain, one with further dots (only the LAST extension is replaced)
 Bases == {"prog", "report.monthly"}
 \* an artifact: directory, file name without its last extension, last extension, and the format its content is in
@@ -34,20 +37,22 @@ ParseOut(in, base, out, fmt) ==
     [] out = "dir"      -> Art("d", IF in = "file" THEN base ELSE "ast", fmt, fmt)   \* -o DIR: the input file's name with its last extension replaced
     [] out = "stdout"   -> Art("a", "captured", "txt", fmt)
 DoParse == /\ stage = "start"
-           /\ \E in \in {"file", "stdin"}, base \in Bases, out \in {"file", "fileneutral", "filewrong", "dir", "stdout"}, fmt \in Formats, explicit \in BOOLEAN :
+           /\ \E in \in {"file", "stdin"}, base \in Bases, out \in {"file", "fileneutral", "filewrong", "dir", "stdout"}, fmt \in Formats, explicit \in BOOLEAN, spell \in Spellings :
                 /\ explicit \/ out = "file"                    \* otherwise the format is not determinable
+                /\ ~explicit => spell = "lower"                \* the spelling only exists when the format is named
                 /\ in = "stdin" => base = "prog"               \* the name plays no role when the source comes from stdin
-                /\ parse' = [in |-> in, src |-> base \o ".fml", out |-> out, fmt |-> fmt, explicit |-> explicit]
+                /\ parse' = [in |-> in, src |-> base \o ".fml", out |-> out, fmt |-> fmt, explicit |-> explicit, named |-> Spelled(fmt, spell)]
                 /\ ast' = ParseOut(in, base, out, fmt)
            /\ stage' = "parsed" /\ UNCHANGED <<compile, execute, bc>>
 \* extension of an artifact as the tools see it
 Ext(a) == IF a.ext \in Formats THEN a.ext ELSE "none"
 DoCompile == /\ stage = "parsed"
-             /\ \E in \in {"file", "stdin"}, out \in {"file", "dir", "stdout"}, explicit \in BOOLEAN :
+             /\ \E in \in {"file", "stdin"}, out \in {"file", "dir", "stdout"}, explicit \in BOOLEAN, spell \in Spellings :
+                  /\ ~explicit => spell = "lower"
                   /\ explicit \/ (in = "file" /\ Ext(ast) = ast.fmt)       \* inference is possible only when the extension names the format the file is in;
                                                                               \* an explicit --input-format wins over whatever the extension says
                   /\ compile' = [in |-> in, out |-> out, explicit |-> explicit, path |-> ast.path,
-                                 fmt |-> IF explicit THEN ast.fmt ELSE Ext(ast)]
+                                 fmt |-> IF explicit THEN ast.fmt ELSE Ext(ast), named |-> Spelled(ast.fmt, spell)]
                   /\ bc' = CASE out = "file" -> Art("b", "code", "bc", "bc")
                               [] out = "dir" -> Art("e", IF in = "file" THEN ast.stem ELSE "ast", "bc", "bc")
                               [] out = "stdout" -> Art("b", "captured", "bin", "bc")
